@@ -285,6 +285,10 @@ def main(argv):
     # them: CreateOrThrow opens with O_TRUNC).  A big plain run first, then the run under test.
     for n, comp, kind in ((3, "none", "few"), (4, "gzip", "one"), (5, "bzip2", "empty"), (2, "none", "empty"), (6, "gzip", "few"), (3, "none", "some")):
         runs.append({"n": n, "comp": comp, "spec": "1-", "delim": b"\t", "kind": kind, "naming": rng.choice(["prefix", "explicit"]), "history": True})
+    # a first line longer than two FilePiece windows (2.6 MB: the newline search goes through two Shift()s), stdin a
+    # REGULAR FILE (mmap path), followed by short lines with other keys: every line in the shard of ITS key
+    runs.append({"n": 4, "comp": "none", "spec": "1", "delim": b"\t", "kind": "long-first-line", "naming": "prefix", "stdin_file": True})
+    runs.append({"n": 3, "comp": "none", "spec": "1", "delim": b"\t", "kind": "long-first-line", "naming": "explicit", "stdin_file": False})
     # a gzip shard whose writer gets a block while its output buffer has 1..5 bytes free (steered, see gz_partial_drain_input)
     runs.append({"n": 1, "comp": "gzip", "spec": "1-", "delim": b"\t", "kind": "gz-partial-drain", "naming": "prefix"})
     if c.tier == "thorough":
@@ -309,6 +313,9 @@ def main(argv):
                 c.broken.append("no input found that leaves 1..5 free bytes in the gzip writer's buffer at a block boundary")
                 continue
             data = hit[0]
+        elif r["kind"] == "long-first-line":
+            data = b"first\t" + bytes(rng.randrange(97, 123) for _ in range(2600000 + rng.randrange(5000))) + b"\n" + \
+                   b"".join(b"key%d\tshort line %06d\n" % (i % 9, i) for i in range(70000)) + b"first\tagain\n"
         elif r["kind"] == "cr":
             data = b"a\r\nb\r\nplain\nx\r\r\n"
         elif r["kind"] == "cr-random":
@@ -341,10 +348,14 @@ def main(argv):
         renv = dict(env)
         if comp != "none":
             renv.update({"LD_PRELOAD": hx_bin("libvcodec.so"), "VCODEC_LOG": logp, "VCODEC_DATA": "0"})
-        st, so, se = codeclog.run_tool_limited(argv_, stdin=data, timeout=60, cwd=d, env=renv)
+        st, so, se = codeclog.run_tool_limited(argv_, stdin=data, timeout=60, cwd=d, env=renv, stdin_file=bool(r.get("stdin_file")))
         bucket = "tool/n=%s/%s/%s/%s%s" % ("1" if n == 1 else "2-9" if n < 10 else "10-17", comp, r["kind"], r["naming"], "/names-exist-from-a-bigger-run" if r.get("history") else "")
         c.count(("run", ri, n, comp, spec, data), bucket=bucket)
         how = "printf %%s '<input>' | shard -f %s -d '%s' -c %s %s" % (spec, delim.decode().replace("\t", "\\t"), comp, " ".join(args))
+        if r.get("stdin_file"):
+            how = "shard -f %s -d '%s' -c %s %s < input-file   (stdin is a regular file)" % (spec, delim.decode().replace("\t", "\\t"), comp, " ".join(args))
+        if r["kind"] == "long-first-line":
+            how += "   [input: one line of %d bytes with key 'first', then 70000 short lines with keys key0..key8 (1.6 MB), then a second line with key 'first']" % data.index(b"\n")
         if r.get("history"):
             how = "seq 3000 | sed 's/^/old line /' | shard -c none %s ; " % " ".join(args) + how
         rep = {"op": "shard", "n": n, "compression": comp, "fields": spec, "delim_hex": delim.hex(), "args": args,
@@ -486,7 +497,7 @@ def main(argv):
                     break
         # model correspondence: collect (not the megabyte-sized steered gzip input: the extracted list model is
         # quadratic in the lines of one shard; that run is about the validity of the file)
-        if r["kind"] != "gz-partial-drain":
+        if r["kind"] not in ("gz-partial-drain", "long-first-line"):
             pending.append((ri, r, data, recs, outs))
 
     # ------------------------------------------------------------ model vs tool
